@@ -81,6 +81,16 @@ class ScriptScenario(WorldScenario):
     def setup(self, w):
         super().setup(w)
         self.job_runs = {}
+        self.open_logs = {}
+        w.on_job_start_extra = lambda j: self._open_logs(w, j)
+
+    def finale(self, w):
+        for hs in self.open_logs.values():
+            for h in hs:
+                if h is not None:
+                    h.close()
+        self.open_logs = {}
+        super().finale(w)
 
     # ------------------------------------------------------------------ expected options
     def expected_options(self, w, t):
@@ -215,6 +225,40 @@ class ScriptScenario(WorldScenario):
         return base
 
     # ------------------------------------------------------------------ executing a job for real
+    def _log_paths(self, j):
+        out_path = err_path = None
+        for d in j.directives.get("_raw", []):
+            for pre, kind in (("--output=", "o"), ("--error=", "e"), ("-o ", "o"), ("-e ", "e"), ("-oo ", "o"), ("-eo ", "e")):
+                if d.startswith(pre):
+                    if kind == "o":
+                        out_path = d[len(pre):]
+                    else:
+                        err_path = d[len(pre):]
+        return out_path, err_path
+
+    def _open_logs(self, w, j):
+        """The scheduler opens the job's log files when the job STARTS (Slurm and LSF -oo/-eo truncate, SGE
+        appends) and keeps them open: what happens to those paths afterwards does not reach the job's output."""
+        if not self.profile.get("real_bash") or j.id in self.open_logs:
+            return
+        out_path, err_path = self._log_paths(j)
+        mode = "ab" if w.backend == "sge" else "wb"
+        saved = fsx.FS.current
+        fsx.FS.current = None
+        try:
+            hs = []
+            for pth in (out_path, err_path):
+                try:
+                    hs.append(fsx._real_open(pth, mode) if pth else None)
+                except OSError:
+                    hs.append(None)
+            self.open_logs[j.id] = hs
+            if mode == "wb":
+                # the log now belongs to the run in progress: what an earlier run wrote is gone
+                self.job_runs.pop(j.name, None)
+        finally:
+            fsx.FS.current = saved
+
     def run_script_job(self, w, j):
         t_name = j.name
         spec = None
@@ -242,9 +286,10 @@ class ScriptScenario(WorldScenario):
         saved = fsx.FS.current
         fsx.FS.current = None
         try:
-            so = fsx._real_open(out_path, "wb") if out_path else subprocess.DEVNULL
+            held = self.open_logs.pop(j.id, None) or [None, None]
+            so = (held[0] or fsx._real_open(out_path, "wb")) if out_path else subprocess.DEVNULL
             if err_path:
-                se = fsx._real_open(err_path, "wb")
+                se = held[1] or fsx._real_open(err_path, "wb")
             elif w.backend == "slurm" and out_path and out_path != "/dev/null":
                 se = subprocess.STDOUT  # Slurm: without --error stderr goes where --output goes
             else:
@@ -293,10 +338,19 @@ class ScriptScenario(WorldScenario):
             self.job_runs[t_name] = dict(stdout=f.read(), mode=w.knobs.get("log_mode") or "full", id=j.id)
         with fsx._real_open(ref_err, "rb") as f:
             self.job_runs[t_name]["stderr"] = f.read()
-        if (w.knobs.get("log_mode") or "full") == "full" and out_path and not w.pending_violation:
-            with fsx._real_open(out_path, "rb") as f:
-                got = f.read()
-            if got != self.job_runs[t_name]["stdout"]:
+        # (the log of a target that has left the workflow meanwhile may legitimately have been cleaned away)
+        if (w.knobs.get("log_mode") or "full") == "full" and out_path and not w.pending_violation \
+                and t_name in w.model.targets:
+            try:
+                with fsx._real_open(out_path, "rb") as f:
+                    got = f.read()
+            except FileNotFoundError:
+                got = b"<the log file does not exist>"
+            want_out = self.job_runs[t_name]["stdout"]
+            if w.backend == "sge" and got != want_out and got.endswith(want_out):
+                # Grid Engine appends to an existing -o/-e file: the latest run's output is the end of the log
+                w.probe("sge_log_holds_earlier_runs_too")
+            elif got != want_out:
                 w.flag("C10", "stdout_log_differs", f"{t_name}: log has {got[:80]!r}, spec printed "
                        f"{self.job_runs[t_name]['stdout'][:80]!r}")
         w.cluster.finish(j, "ok" if cp.returncode == 0 else "failed")
@@ -329,5 +383,7 @@ class ScriptScenario(WorldScenario):
         if info["mode"] == "merged":
             if not all(ln in got for ln in want.splitlines()):
                 w.flag("C10", "logs_output", f"gwf logs {op['t']} lacks lines of the job's stdout")
+        elif w.backend == "sge" and got.rstrip(b"\n").endswith(want.rstrip(b"\n")):
+            pass  # Grid Engine appends: the latest run's output is what the log ends with
         elif got.rstrip(b"\n") != want.rstrip(b"\n"):
             w.flag("C10", "logs_output", f"gwf {' '.join(argv)} printed {got[:100]!r}; the latest run wrote {want[:100]!r}")
